@@ -20,6 +20,9 @@ import time
 import traceback
 
 VERIF = os.path.dirname(os.path.dirname(os.path.abspath(__file__)))
+# where evidence/, replays/ and .build/ go.  /verif itself for every registered command; tools/matrix.py points it
+# at a scratch directory so that several changed copies of the repository can be checked side by side.
+OUT = os.environ.get('VERIF_OUT') or VERIF
 PY = '/venv/bin/python'
 NPROC = int(os.environ.get('VERIF_NPROC', str(min(16, os.cpu_count() or 1))))
 
@@ -446,7 +449,7 @@ def ddmin_crash(pid, case, variant, workdir, tier, seed, build_dirs, budget=120)
 
 
 def write_replay(pid, case, variant, msg, sig, kind):
-    d = os.path.join(VERIF, 'replays')
+    d = os.path.join(OUT, 'replays')
     os.makedirs(d, exist_ok=True)
     body = {'property': pid, 'variant': variant, 'kind': kind, 'message': msg, 'sig': sig,
             'case': case}
@@ -482,7 +485,7 @@ def main_check(pid, tier):
     sys.path.insert(0, VERIF)
     prop = importlib.import_module('props.' + pid.lower())
     known = load_known()
-    workdir = os.path.join(VERIF, 'evidence', '.work', '%s-%d' % (pid, os.getpid()))
+    workdir = os.path.join(OUT, 'evidence', '.work', '%s-%d' % (pid, os.getpid()))
     shutil.rmtree(workdir, ignore_errors=True)
     os.makedirs(workdir)
     try:
@@ -578,8 +581,8 @@ def main_check(pid, tier):
             'wall_s': round(wall, 2),
             'violations': len(violations),
         }
-        os.makedirs(os.path.join(VERIF, 'evidence'), exist_ok=True)
-        with open(os.path.join(VERIF, 'evidence', pid + '.json'), 'w') as f:
+        os.makedirs(os.path.join(OUT, 'evidence'), exist_ok=True)
+        with open(os.path.join(OUT, 'evidence', pid + '.json'), 'w') as f:
             json.dump(ev, f, indent=1, default=repr)
             f.write('\n')
 
@@ -612,7 +615,7 @@ def main_replay(pid, path):
     with open(path) as f:
         body = json.load(f)
     variant = body.get('variant', 'rel')
-    workdir = os.path.join(VERIF, 'evidence', '.work', '%s-replay-%d' % (pid, os.getpid()))
+    workdir = os.path.join(OUT, 'evidence', '.work', '%s-replay-%d' % (pid, os.getpid()))
     shutil.rmtree(workdir, ignore_errors=True)
     try:
         build_dirs = build_all([variant])
